@@ -1024,6 +1024,8 @@ def gen_session(rng, big=False):
         need = any(models[x]["kind"] == "log" for x in (o["Q"], o["P"]))
         if o["declared"]:
             logarg = rng.choice([None, None, False, True])
+        elif need and rng.random() < 0.05:
+            logarg = rng.choice([None, False])           # logarithms handed over as likelihoods: math.log of a negative number
         elif need:
             logarg = True
         elif o["sticky"]:
